@@ -1,5 +1,7 @@
 import Heph.Spec.Typing
 import Heph.Model.CondType
+import Heph.Model.GenVar
+import Heph.Props.C06
 import Heph.Proofs.CheckSound
 import Heph.Proofs.CheckSubD
 import Heph.Proofs.CheckUniv
@@ -286,5 +288,77 @@ theorem condTypeFixed_eq {α : Type} (sub : α → α → Bool) (etype tmp t f :
     (h : sub t (condType sub tmp t f) = true ∧ sub f (condType sub tmp t f) = true) :
     condTypeFixed sub etype tmp t f = condType sub tmp t f := by
   simp [condTypeFixed, h.1, h.2]
+
+/-! ## 4. Decision point `gen_variable`: the variables offered for a position of type `τ` -/
+
+private theorem res_beq_yes (r : Res) : (r == Res.yes) = true ↔ r = .yes := by
+  cases r <;> decide
+
+/-- **every candidate passed both filters**: with `subtype` the code's own `is_assignable`
+    answered yes for the variable's type and the expected type, without it the two types are
+    `==`; inside a Java lambda the variable is final or local to the lambda. -/
+theorem genVariable_sound (extra : List (String × String)) (vars : List VarInfo) (τ : Ty) (sub jl : Bool)
+    (v : VarInfo) (h : v ∈ genVariableCandidates extra vars τ sub jl) :
+    v ∈ vars ∧ (sub = true → isAssignable extra v.ty τ = .yes) ∧ (sub = false → beq v.ty τ = true) ∧
+      (jl = true → v.final = true ∨ v.outer = false) := by
+  simp only [genVariableCandidates, List.mem_filter, genVarKeeps, Bool.and_eq_true, Bool.or_eq_true,
+    Bool.not_eq_true'] at h
+  obtain ⟨hm, hj, ht⟩ := h
+  refine ⟨hm, ?_, ?_, ?_⟩
+  · intro hs; subst hs; exact (res_beq_yes _).1 (by simpa using ht)
+  · intro hs; subst hs; simpa using ht
+  · intro hj'; subst hj'
+    rcases hj with (hj | hj) | hj
+    · cases hj
+    · exact Or.inl hj
+    · exact Or.inr hj
+
+/-- …hence, for well-formed types, a candidate's type is a declarative subtype of the expected
+    type (`SubT`, C06), or a pair of the regenerated numeric-widening table, or two Java arrays of
+    one primitive element type: the three ways `is_assignable` says yes (`assignable_sound`). -/
+theorem genVariable_assignable (extra : List (String × String)) (vars : List VarInfo) (τ : Ty) (jl : Bool)
+    (v : VarInfo) (h : v ∈ genVariableCandidates extra vars τ true jl)
+    (hs : wf v.ty = true) (ht : wf τ = true) :
+    SubT (univ [v.ty, τ]) v.ty τ ∨
+    (∃ c nm nt p ss c' nm' nt' p' ss', v.ty = builtin c nm nt p ss ∧ τ = builtin c' nm' nt' p' ss' ∧
+      (c, c') ∈ extra) ∨
+    (∃ nm con a as ss nm' con' b bs ss', v.ty = param nm con (a :: as) ss ∧
+      τ = param nm' con' (b :: bs) ss' ∧ isJavaArrayCon con = true ∧ isJavaArrayCon con' = true ∧
+      beq a b = true ∧ a.isPrim = true ∧ b.isPrim = true) :=
+  Heph.Props.C06.assignable_sound extra v.ty τ hs ht ((genVariable_sound extra vars τ true jl v h).2.1 rfl)
+
+/-- **completeness of the list**: a variable in scope that passes both filters is offered -/
+theorem genVariable_complete (extra : List (String × String)) (vars : List VarInfo) (τ : Ty) (sub jl : Bool)
+    (v : VarInfo) (hm : v ∈ vars) (hk : genVarKeeps extra τ sub jl v = true) :
+    v ∈ genVariableCandidates extra vars τ sub jl :=
+  List.mem_filter.2 ⟨hm, hk⟩
+
+/-- **the refinement checked on every recorded call**: a returned variable is one of the
+    candidates (so `genVariable_sound` applies to it), and the fall-back branch
+    (`generate_expr(..., exclude_var=True)`) is taken only when no variable in scope qualifies -/
+theorem genVariable_refines_variable (extra : List (String × String)) (vars : List VarInfo) (τ : Ty)
+    (sub jl : Bool) (n : String) (h : genVariableRefines extra vars τ sub jl (.variable n) = true) :
+    ∃ v ∈ genVariableCandidates extra vars τ sub jl, v.name = n := by
+  simp only [genVariableRefines, List.any_eq_true, beq_iff_eq] at h
+  exact h
+
+theorem genVariable_refines_fallback (extra : List (String × String)) (vars : List VarInfo) (τ : Ty)
+    (sub jl : Bool) (h : genVariableRefines extra vars τ sub jl .fallback = true) :
+    ∀ v ∈ vars, genVarKeeps extra τ sub jl v = false := by
+  simp only [genVariableRefines, genVariableCandidates, List.isEmpty_iff, List.filter_eq_nil_iff] at h
+  intro v hv
+  simpa using h v hv
+
+/-- the hypotheses are satisfiable and the filters bite: of a final `Long` and a non-final
+    `Float` variable of the enclosing scope, a `Number` position inside a Java lambda is offered
+    only the final one; outside a lambda both -/
+example :
+    (genVariableCandidates [] [⟨"a", longK, true, true⟩, ⟨"b", floatK, false, true⟩] numK true true).map (·.name)
+      = ["a"] ∧
+    (genVariableCandidates [] [⟨"a", longK, true, true⟩, ⟨"b", floatK, false, true⟩] numK true false).map (·.name)
+      = ["a", "b"] ∧
+    (genVariableCandidates [] [⟨"a", longK, true, true⟩, ⟨"b", floatK, false, true⟩] floatK false false).map (·.name)
+      = ["b"] := by
+  decide
 
 end Heph.Props.C01
